@@ -3,6 +3,7 @@ mod arr;
 mod cost;
 mod engine;
 mod props;
+mod ros;
 mod sim_uni;
 mod supply_ref;
 mod tasks;
